@@ -1,6 +1,7 @@
 /* unit addrpub: the unit's ghost globals (contracts/addrpub.h) are arbitrary at the start of every harness */
 uint16_t nondet_u16(void);
 char nondet_char(void);
+void *nondet_ptr(void);
 static inline void xv_addrpub_havoc(void)
 {
     xv_nj = nondet_long(); xv_hb = nondet_long(); xv_g_b0 = nondet_uchar(); xv_g_b1 = nondet_uchar();
@@ -12,7 +13,7 @@ static inline void xv_addrpub_havoc(void)
     xv_pf_ip4 = nondet_uint(); xv_pf_ipb = nondet_uchar(); xv_pf_namec = nondet_char();
     xv_proto_sz = nondet_size_t();
     xv_snprintf_calls = nondet_int(); xv_snprintf_ret = nondet_int(); xv_snprintf_cap = nondet_size_t();
-    /* tracked pointers: left as DFCC's nondeterministic statics make them (any value) */
+    xv_t_out = nondet_ptr(); xv_t_name = nondet_ptr(); xv_t_addr = nondet_ptr();     /* tracked pointers: any value */
 }
 /* keeps a callee named under `replace:` in the goto program even if the code under proof stops calling it (goto-instrument
  * refuses to replace a function that does not exist; the missing call then shows as a failed postcondition instead) */
